@@ -17,7 +17,7 @@ M = [
      "   _rationalLP->changeRange(i, lhs, rhs);\n   _rowTypes[i] = _rangeTypeRational(lhs, rhs);",
      "   _rationalLP->changeRange(i, lhs, rhs);\n   _rowTypes[i] = _rangeTypeRational(rhs, lhs);"),
     ('C07', 'sync-without-range-types', 'R07.3', 'src/soplex.hpp',
-     "   _ensureRationalLP();\n   *_rationalLP = *_realLP;\n   _recomputeRangeTypesRational();", "   _ensureRationalLP();\n   *_rationalLP = *_realLP;"),
+     "   else\n      *_rationalLP = *_realLP;\n\n   _recomputeRangeTypesRational();", "   else\n      *_rationalLP = *_realLP;\n"),
     ('C06', 'changeElement-one-sided', 'R06.3', 'src/soplex/spxlpbase.h',
      "            LPRowSetBase<R>::add2(i, 1, &j, &newVal);\n            LPColSetBase<R>::add2(j, 1, &i, &newVal);", "            LPRowSetBase<R>::add2(i, 1, &j, &newVal);"),
     ('C06', 'override-without-unInit', 'R06.6', 'src/soplex/changesoplex.hpp',
